@@ -190,7 +190,7 @@ pub fn check(rec: &RunRecord, reg: &Reg, cells: &mut Cells) -> Vec<Finding> {
                 _ => out.push(Finding::new("C03", "c03.ambiguous", op.idx, format!("{}: {} is accepted by several parts: {:?}", d.cid(), d.msg(), accepted.iter().map(|a| a.part).collect::<Vec<_>>()))),
             }
         });
-        if let Outcome::Panic(p) = &op.outcome {
+        if let Some(p) = op.outcome.foreign_panic() {
             out.push(Finding::new("C03", "c03.panic", op.idx, format!("delivery panicked: {p}")));
         }
         if top_rejected {
